@@ -49,6 +49,7 @@ func minimise(c Check, sc *Scenario, v *Violation) *Scenario {
 		sizeBefore := scenarioSize(m.best)
 		m.dropTasks()
 		m.dropOps(v)
+		m.dropDocs()
 		m.shrinkTapes()
 		m.shrinkParams()
 		m.shrinkDocs()
@@ -202,7 +203,7 @@ func (m *minimiser) shrinkDocs() {
 		// repeat counts
 		for si := range m.best.Docs[di].Segs {
 			for _, f := range []func(int) int{func(n int) int { return 1 }, func(n int) int { return n / 2 }, func(n int) int { return n - 1 }} {
-				for {
+				for iter := 0; iter < 10; iter++ {
 					n := m.best.Docs[di].Segs[si].N
 					nn := f(n)
 					if nn >= n || nn < 0 {
